@@ -1130,16 +1130,19 @@ class Server(utils.EventEmitter):
             # must all be world-readable
             attribute_value = await attribute.read_value(bearer)
             length = len(attribute_value)
+
+            # Check if there is enough space for the length field
+            if pdu_space_available < 2:
+                break
+
             # Check the attribute value size
-            max_attribute_size = min(bearer.att_mtu - 3, 251)
+            max_attribute_size = min(pdu_space_available - 2, 251)
             if len(attribute_value) > max_attribute_size:
                 # We need to truncate
                 attribute_value = attribute_value[:max_attribute_size]
 
-            # Check if there is enough space
-            entry_size = 2 + len(attribute_value)
-
             # Add the attribute to the list
+            entry_size = 2 + len(attribute_value)
             length_value_tuple_list.append((length, attribute_value))
             pdu_space_available -= entry_size
 
